@@ -27,6 +27,7 @@ import (
 	"github.com/cosmos/cosmos-sdk/codec"
 
 	"github.com/noble-assets/orbiter/v2/types"
+	actiontypes "github.com/noble-assets/orbiter/v2/types/controller/action"
 	"github.com/noble-assets/orbiter/v2/types/core"
 )
 
@@ -82,6 +83,10 @@ func (p *JSONParser) Parse(jsonString string) (*core.Payload, error) {
 		return nil, core.ErrParsingPayload.Wrap("json arrays cannot contain null elements")
 	}
 
+	if containsConflictingFeeTypes(jsonData) {
+		return nil, core.ErrParsingPayload.Wrap("a fee info can specify only one fee type")
+	}
+
 	pw := core.PayloadWrapper{}
 	err = types.UnmarshalJSON(p.cdc, []byte(jsonString), &pw)
 	if err != nil {
@@ -108,6 +113,39 @@ func containsNullElement(value any) bool {
 	case []any:
 		for _, e := range v {
 			if e == nil || containsNullElement(e) {
+				return true
+			}
+		}
+	}
+
+	return false
+}
+
+// containsConflictingFeeTypes reports whether any object nested in the JSON value sets more
+// than one field of the fee type oneof. The codec does not reject such an object: it sets the
+// fields by iterating over a map and the last one wins, so the decoded fee type, and with it
+// the fee paid, would change from run to run.
+func containsConflictingFeeTypes(value any) bool {
+	switch v := value.(type) {
+	case map[string]any:
+		found := 0
+		for _, name := range actiontypes.FeeTypeJSONFields {
+			if _, ok := v[name]; ok {
+				found++
+			}
+		}
+		if found > 1 {
+			return true
+		}
+
+		for _, e := range v {
+			if containsConflictingFeeTypes(e) {
+				return true
+			}
+		}
+	case []any:
+		for _, e := range v {
+			if containsConflictingFeeTypes(e) {
 				return true
 			}
 		}
